@@ -4,7 +4,9 @@ package c11
 import (
 	"encoding/json"
 	"net/url"
+	"os"
 	"path"
+	"path/filepath"
 	"strings"
 	"testing"
 
@@ -42,12 +44,21 @@ type Case struct {
 	// does not exist at the location it designates, while a file of that relative name exists next to
 	// the root: only the designated location may be tried
 	MissingTarget string `json:"missing_target,omitempty"`
+	// RealFile (entry "real-files"): names of real files read through the library's own file reader
+	RealFile *RealFile `json:"real_file,omitempty"`
 	// QueryRefs: how many relative references of the layout carry a query string
 	QueryRefs int `json:"query_refs,omitempty"`
 	// Hosts (entry "multi-host"): two documents with the same path at locations that differ in one URL
 	// component; each one's relative references belong to its own location
 	Hosts *Hosts `json:"hosts,omitempty"`
 }
+
+type RealFile struct {
+	RootName, RootDecoy string
+	ElemName, ElemDecoy string // "" = no external reference
+}
+
+var realFileNames = [][2]string{{"ro%41t.json", "roAt.json"}, {"spec%20v2.json", "spec v2.json"}, {"plain.json", "other.json"}, {"a%2Fb.json", "a/b.json"}, {"x%2541.json", "x%41.json"}, {"sub/el%23.json", "sub/el#.json"}}
 
 type Hosts struct {
 	Diff     string `json:"diff"`      // host | scheme | query | port | userinfo-free path case: what tells the two locations apart
@@ -255,9 +266,71 @@ func hostileForms(kind, root string) []string {
 	return out
 }
 
+// checkRealFiles: the library's own file reader, on real files whose names contain characters that mean
+// something in a URL. Each name has a namesake that is what the name would be after (another round of)
+// percent-decoding; what is loaded has to be the file that was named.
+func checkRealFiles(c Case) (o h.Outcome) {
+	dir, err := os.MkdirTemp("", "verif-c11-")
+	if err != nil {
+		panic("harness: " + err.Error())
+	}
+	defer os.RemoveAll(dir)
+	docOf := func(title, ref string) []byte {
+		comps := M{"schemas": M{"Own": M{"type": "string"}}}
+		if ref != "" {
+			comps["schemas"].(M)["Ext"] = M{"$ref": ref}
+		}
+		b, _ := json.Marshal(M{"openapi": "3.0.3", "info": M{"title": title, "version": "1"}, "paths": M{}, "components": comps})
+		return b
+	}
+	rf := c.RealFile
+	write := func(name string, b []byte) {
+		p := filepath.Join(dir, filepath.FromSlash(name))
+		_ = os.MkdirAll(filepath.Dir(p), 0o755)
+		if werr := os.WriteFile(p, b, 0o644); werr != nil {
+			panic("harness: " + werr.Error())
+		}
+	}
+	ref := ""
+	if rf.ElemName != "" {
+		// the reference is the URL spelling of the element's file name
+		ref = (&url.URL{Path: rf.ElemName}).EscapedPath()
+		write(path.Join(path.Dir(rf.RootName), rf.ElemName), []byte(`{"type":"integer","x-vid":"named"}`)) // next to the referring file
+		write(path.Join(path.Dir(rf.RootName), rf.ElemDecoy), []byte(`{"type":"boolean","x-vid":"decoy"}`))
+	}
+	write(rf.RootName, docOf("named", ref))
+	write(rf.RootDecoy, docOf("decoy", ""))
+	ld := openapi3.NewLoader()
+	ld.IsExternalRefsAllowed = rf.ElemName != ""
+	var d *openapi3.T
+	if !o.Guarded("LoadFromFile(real)", func() { d, err = ld.LoadFromFile(filepath.Join(dir, filepath.FromSlash(rf.RootName))) }) {
+		return
+	}
+	o.NonTrivial = true
+	o.Class("real-files:root=%s:elem=%s", rf.RootName, rf.ElemName)
+	if err != nil {
+		o.Fail("real-file-not-loaded", "the file %q (element %q) does not load through the library's own reader: %v", rf.RootName, rf.ElemName, err)
+		return
+	}
+	if d.Info.Title != "named" {
+		o.Fail("real-file:another-file-read", "LoadFromFile(%q) returned the document of another file (title %q); its namesake after percent-decoding is %q", rf.RootName, d.Info.Title, rf.RootDecoy)
+		return
+	}
+	if rf.ElemName != "" {
+		got, _ := d.Components.Schemas["Ext"].Value.Extensions["x-vid"].(string)
+		if got != "named" {
+			o.Fail("real-file:another-file-read", "the reference %q in %q designates the file %q; what was read is %q (namesake %q)", ref, rf.RootName, rf.ElemName, got, rf.ElemDecoy)
+		}
+	}
+	return
+}
+
 func check(c Case) (o h.Outcome) {
 	if c.Entry == "multi-host" && c.Hosts != nil {
 		return checkHosts(c)
+	}
+	if c.Entry == "real-files" && c.RealFile != nil {
+		return checkRealFiles(c)
 	}
 	fs := &memfs.FS{Files: map[string][]byte{}, Decoy: []byte(decoy)}
 	var rootBytes []byte
@@ -666,7 +739,20 @@ func plantMissingTarget(t *rapid.T, c *Case) {
 	c.MissingTarget = designated
 }
 
+func genRealFiles(t *rapid.T) Case {
+	r := rapid.SampledFrom(realFileNames).Draw(t, "realroot")
+	rf := &RealFile{RootName: r[0], RootDecoy: r[1]}
+	if rapid.Bool().Draw(t, "realelem") {
+		e := rapid.SampledFrom(realFileNames).Draw(t, "realelemname")
+		rf.ElemName, rf.ElemDecoy = "el-"+e[0], "el-"+e[1]
+	}
+	return Case{Entry: "real-files", Allow: rf.ElemName != "", RealFile: rf}
+}
+
 func gen(t *rapid.T) Case {
+	if rapid.IntRange(0, 19).Draw(t, "realfiles") == 0 {
+		return genRealFiles(t)
+	}
 	if rapid.IntRange(0, 9).Draw(t, "multihost") == 0 {
 		hc := &Hosts{Diff: rapid.SampledFrom([]string{"host", "scheme", "query", "port", "userinfo"}).Draw(t, "diff"),
 			RelFirst: rapid.Bool().Draw(t, "relfirst"), ByData: rapid.Bool().Draw(t, "bydata"), KindIdx: rapid.IntRange(0, 2).Draw(t, "kind")}
